@@ -50,7 +50,7 @@ def _context(name, prev, row):
 
 
 def _obs(ctx, tpath, rows, tag):
-    res = vlib.tlc_trace(ctx, "Trace_Epochs", "Trace_Epochs_FALSE.cfg", tpath, env={"VERIF_MODE": "obs"},
+    res = vlib.tlc_trace(ctx, "Trace_Epochs", "Trace_Epochs_TRUE.cfg", tpath, env={"VERIF_MODE": "obs"},
                          tag=tag + "_obs", timeout=1800)
     if not res["accepted"]:
         raise vlib.Infra("Obs-mode trace run failed (%s), see %s" % (res["violated"], res["outfile"]))
@@ -67,7 +67,7 @@ def _obs(ctx, tpath, rows, tag):
 
 def _conf(ctx, tpath, tag):
     notes = []
-    for fx in ("FALSE", "TRUE"):
+    for fx in ("TRUE", "FALSE"):
         res = vlib.tlc_trace(ctx, "Trace_Epochs", "Trace_Epochs_%s.cfg" % fx, tpath, env={"VERIF_MODE": "conf"},
                              tag="%s_conf_%s" % (tag, fx), timeout=1800)
         if res["accepted"]:
